@@ -1036,7 +1036,7 @@ def _shape_blocks(block: list[ast.stmt], ref_ifs: dict[str, list[ast.If]], notes
                 # a test the reference does not have at all (the change itself): positive polarity, as everywhere in the reference
                 st.test, st.body, st.orelse = negate(st.test), st.orelse, st.body
                 notes.append("if/else polarity")
-                t, tn = tn, t
+                t, tn = ast.unparse(st.test), _u(negate(st.test))  # (a doubled negation has one more layer to go)
             if t not in ref_ifs and len(ref_ifs.get(tn, [])) == 1:
                 if st.orelse:
                     st.test, st.body, st.orelse = negate(st.test), st.orelse, st.body
